@@ -7,6 +7,8 @@ import (
 	"os"
 	"strings"
 
+	"github.com/avfs/avfs"
+
 	"verif/harness/drv"
 )
 
@@ -22,6 +24,10 @@ func runExtra(cmd string, args []string) error {
 		return cmdIdmConc(args)
 	case "copyrun":
 		return cmdCopyRun(args)
+	case "volreplay":
+		return cmdVolReplay(args)
+	case "osinfo":
+		return cmdOsInfo()
 	}
 
 	return fmt.Errorf("unknown command %q", cmd)
@@ -209,6 +215,65 @@ func cmdCopyRun(args []string) error {
 	}
 
 	b, _ := json.Marshal(map[string]any{"runs": n})
+	fmt.Println(string(b))
+
+	return nil
+}
+
+func cmdVolReplay(args []string) error {
+	fl := flag.NewFlagSet("volreplay", flag.ExitOnError)
+	edges := fl.String("edges", "", "edges emitted by Volumes.tla")
+	out := fl.String("out", "", "non-conforming edges")
+	_ = fl.Parse(args)
+
+	in, err := os.Open(*edges)
+	if err != nil {
+		return err
+	}
+	defer in.Close()
+
+	of, err := os.Create(*out)
+	if err != nil {
+		return err
+	}
+	defer of.Close()
+
+	n, bad, err := drv.VolReplay(in, of)
+	if err != nil {
+		return err
+	}
+
+	b, _ := json.Marshal(map[string]any{"edges": n, "bad": bad})
+	fmt.Println(string(b))
+
+	return nil
+}
+
+func cmdOsInfo() error {
+	out := map[string]any{}
+
+	for _, t := range []string{"memfs", "orefafs", "memfs-win", "orefafs-win"} {
+		f, err := drv.NewFactory(t)
+		if err != nil {
+			return err
+		}
+
+		s, err := f.New()
+		if err != nil {
+			out[t] = map[string]any{"error": err.Error()}
+
+			continue
+		}
+
+		out[t] = map[string]any{
+			"ostype_sep":     []string{s.FS.OSType().String(), string(s.FS.PathSeparator())},
+			"has_setostype":  s.FS.HasFeature(avfs.FeatSetOSType),
+			"features":       s.FS.Features().String(),
+			"volume_manager": fmt.Sprintf("%T", s.FS),
+		}
+	}
+
+	b, _ := json.Marshal(out)
 	fmt.Println(string(b))
 
 	return nil
